@@ -1,4 +1,5 @@
 //! nbverif: pure executor. Reads cases on stdin, writes one observation line per case.
+mod eval;
 mod fmt;
 mod list;
 
@@ -13,6 +14,7 @@ fn main() {
     match args[1].as_str() {
         "list" => list::main(),
         "fmt" => fmt::main(),
+        "eval" => eval::main(),
         other => {
             eprintln!("unknown subcommand {other}");
             std::process::exit(2);
